@@ -37,6 +37,10 @@ CALL_GUARDS = {
     "bidib_node_state_get_and_incr_send_seqnum": "bidib_send_order_mutex",
     "bidib_node_try_send": "bidib_send_order_mutex",
     "bidib_buffer_message": "bidib_send_order_mutex",
+    # call-site specific (caller:callee): the append of an admitted message to the packet buffer is the
+    # third step of a submission and must still be inside the send-order region (the receiver thread's
+    # own appends in bidib_node_try_queued_messages are not)
+    "bidib_buffer_message:bidib_add_to_buffer": "bidib_send_order_mutex",
 }
 THREAD_MAINS = ["bidib_auto_receive", "bidib_auto_flush", "bidib_heartbeat_log"]
 # public functions the README excludes from concurrent use (start/stop/reset) or that only set modes
@@ -196,10 +200,11 @@ class Translator:
                         if s.get("kind") == "IntegerLiteral": bargs.append(s.get("value") != "0")
                         elif s.get("kind") == "CXXBoolLiteralExpr": bargs.append(bool(s.get("value")))
                         else: bargs.append(None)
-                    if name in CALL_GUARDS:
-                        key = "call:" + name
-                        self.guard_of[key] = CALL_GUARDS[name]
-                        pre = pre + [("acc", self.glob_id(key))]
+                    for ck in (name, self.cur + ":" + name):
+                        if ck in CALL_GUARDS:
+                            key = "call:" + ck
+                            self.guard_of[key] = CALL_GUARDS[ck]
+                            pre = pre + [("acc", self.glob_id(key))]
                     return self.seq(pre + [("call", name, tuple(bargs))])
                 return self.seq(pre)       # external library function
             if ckind == "VarDecl":      # static function pointer (read_byte / write_bytes)
